@@ -108,6 +108,16 @@ func (r *persistRunner) open() {
 	}
 }
 
+// add: on a SHARDED persister a failure of the single-map clauses (C08: reads = latest acknowledged write; C09: state and
+// RangeKeys after close/reopen) is a failure of C19 as well ("a sharded persister behaves as a single map, RangeKeys visits the
+// union of all shards")
+func (r *persistRunner) add(prop, clause, detail string) {
+	r.violBuf.add(prop, clause, detail)
+	if r.shards >= 2 && (prop == "C08" || prop == "C09") {
+		r.violBuf.add("C19", "sharded-"+clause, fmt.Sprintf("%d shards: %s", r.shards, detail))
+	}
+}
+
 func (persistComp) NewRunner(begin string) Runner {
 	kv := parseKV(strings.Fields(begin))
 	r := &persistRunner{kind: kv["kind"], shards: int(atou(kv["shards"])), batch: int(atou(kv["batch"])), delay: int(atou(kv["delay"])), ref: map[string][]byte{}}
